@@ -15,8 +15,8 @@ CHECKS = {
          "Full for DP, complete greedy, CKK (both managers), SNP and RNP (k <= 5, after F10 - the defect was found by the proof attempt); ILP: the formulation's optimum is proved to be the true optimum, the MIP solver is trusted and certified per run. Every exact algorithm's output is additionally compared with the verified oracle on every run.", TB),
  "C03": ("proof", "Lean 4 theorems ff/ffd/bf/bfd_isPacking, bc_isPacking + correspondence + verified checker",
          "Full: feasibility, completeness and non-empty bins proved for the four fit heuristics in every arrival order and for bin completion (list input; zero-valued items dropped). Strict correspondence incl. bin sizes up to 2^40 and dyadic fractions; the helpers of bin completion's search are compared directly.", TB),
- "C04": ("proof", "Lean 4 theorem bc_optimal (bin completion = optBins) + packing_lower_bound, bc_le_bfd, isDom_sound + verified oracle optBins + correspondence incl. direct calls of the search helpers",
-         "Full for list input: the model of bin completion's search is proved to return an optimal packing (Martello-Toth dominance formalised; explicit fuel bound), never more bins than BFD; every implementation answer is compared with the verified minimum for Partition, Sums and BinCount.", TB),
+ "C04": ("proof", "Lean 4 theorem bc_optimal (bin completion = optBins) + packing_lower_bound, bc_le_bfd, isDom_sound + verified oracle optBins + correspondence incl. direct calls of the search helpers and the trace of the search (binCompletionT_fst)",
+         "Full for list input: the model of bin completion's search is proved to return an optimal packing (Martello-Toth dominance formalised; explicit fuel bound), never more bins than BFD; every implementation answer is compared with the verified minimum for Partition, Sums and BinCount; the sequence of find_bin_completions calls the implementation makes is compared with the model's trace.", TB),
  "C05": ("proof", "Lean 4 theorems coverDecreasing/twoThirds/threeQuarters_isCover + correspondence + verified checker",
          "Full: each covering algorithm's model is proved to return a valid cover wasting less than one bin, for all inputs; strict correspondence with the code.", TB),
  "C06": ("proof", "Lean 4 theorems (consistency of every algorithm's result, outputs_from_partition, *_sums_values, snp/rnpF_sums_manager_independent, ckk_value_manager_independent) + model-side output projection + correspondence across all output types",
